@@ -101,7 +101,7 @@ Proof. intros HI Hd. destruct (i_down _ HI Hd) as [_ [Hs _]]. cbn. rewrite Hs. r
 (* ---- back-off ---------------------------------------------------------------------------------------- *)
 Section Backoff.
 Variables one wmax : Z.
-Hypothesis H1 : forall w, one <= w -> w <= next w.
+Hypothesis H1 : forall w, one <= w -> w <= wmax -> w <= next w.
 Hypothesis H2 : forall w, next w <= wmax.
 Hypothesis Hw0 : one <= w0 /\ w0 <= wmax.
 
@@ -125,7 +125,7 @@ Proof.
   induction h as [|w r IH]; intros C; [constructor|].
   destruct r as [|w' r']; [constructor|].
   change (w = next w' /\ chain (w' :: r')) in C. destruct C as [-> C]. constructor; [|apply IH; exact C].
-  pose proof (chain_bounds _ C) as F. inversion F as [|? ? [Ha Hb] _]; subst. apply H1. lia.
+  pose proof (chain_bounds _ C) as F. inversion F as [|? ? [Ha Hb] _]; subst. apply H1; lia.
 Qed.
 End Backoff.
 
